@@ -8,7 +8,7 @@ import (
 )
 
 func Spec(tier string, seed uint64, realBin string) *core.CheckSpec {
-	worlds := 900
+	worlds := 1500
 	budget := 5 * time.Minute
 	if tier == "thorough" {
 		worlds = 12000
